@@ -277,6 +277,116 @@ def a_run_block(block):
 
 
 # ---------------------------------------------------------------------------------------------------------
+# (a') two verbatim-like constructs in sequence: the second body must not depend on what came before
+# ---------------------------------------------------------------------------------------------------------
+SEQ_KINDS = ['verbatim', 'verbatim*', 'verb', 'verb*', 'alltt', 'zzv']
+SEQ_PRE = '\\usepackage{alltt}\\newenvironment{zzv}{\\verbatim}{\\endverbatim}' + PRE
+SEQ_FIRST = {'alltt': ('p\\textbf{q}%s\n t', 'pq%s\n t')}      # alltt keeps \ { } special: (body, its text)
+SEQ_FIRST_VERB = 'p\\q{r}%s'
+SEQ_TAGS = ('verbatim', 'verbatim*', 'verb', 'alltt')
+ALLTT_SPECIAL = '\\{}`-'     # alltt: \ { } stay special; ` and - are left out (plasTeX applies the text ligatures in alltt)
+
+
+def s_tag(kind):
+    return 'verb' if kind in ('verb', 'verb*') else 'verbatim' if kind == 'zzv' else kind
+
+
+def s_construct(kind, body):
+    if kind in ('verb', 'verb*'):
+        return '\\%s|%s|' % (kind, body)
+    return '\\begin{%s}%s\\end{%s}' % (kind, body, kind)
+
+
+def s_alphabet(second):
+    syms = symbols('verbatim*' if second == 'verbatim*' else 'verbatim', 'full')
+    if second == 'alltt':
+        syms = [x for x in syms if not any(c in x for c in ALLTT_SPECIAL)]
+    if second in ('verb', 'verb*'):
+        syms = [x for x in syms if '|' not in x]
+    return syms
+
+
+def s_unit(first, second, body):
+    fb = SEQ_FIRST.get(first, (SEQ_FIRST_VERB, SEQ_FIRST_VERB))[0]
+    return '%s%sm--%s%s' % (HEAD, s_construct(first, fb), s_construct(second, body), TAIL)
+
+
+def s_expected(first, second, bodies):
+    ft = SEQ_FIRST.get(first, (SEQ_FIRST_VERB, SEQ_FIRST_VERB))[1]
+    per = dict((t, []) for t in SEQ_TAGS)
+    for b in bodies:
+        per[s_tag(first)].append(ft)
+        per[s_tag(second)].append(b)
+    text = ''.join(HEAD_TXT + ft + 'm' + DASH + b + TAIL_TXT for b in bodies)
+    return [per[t] for t in SEQ_TAGS], text, 2
+
+
+def s_observe(first, second, bodies):
+    src = SEQ_PRE + ''.join(s_unit(first, second, b) for b in bodies)
+    try:
+        doc = parse_doc(src, 20.0 + 0.01 * len(bodies))
+        return ([[plain(n.textContent) for n in doc.getElementsByTagName(t)] for t in SEQ_TAGS], plain(doc.textContent),
+                len(doc.context.contexts))
+    except core.Timeout:
+        return 'timeout'
+    except Exception as e:
+        return 'raises:%s' % type(e).__name__
+
+
+def s_judge(first, second, body):
+    exp = s_expected(first, second, [body])
+    obs = s_observe(first, second, [body])
+    if obs == exp:
+        return 'ok', None, exp, obs, ''
+    return 'violation', None, exp, obs, 'a body, the text around it or the group depth differs in a sequence of two verbatim-like constructs'
+
+
+def s_run_block(block):
+    """block = ('s', first, second, maxlen)"""
+    _, first, second, maxlen = block
+    rep = core.Report()
+    syms = s_alphabet(second)
+    full_end = '\\end{%s}' % ('verbatim' if second == 'zzv' else second) if second not in ('verb', 'verb*') else None
+    batch = []
+
+    def flush():
+        if not batch:
+            return
+        if s_observe(first, second, batch) == s_expected(first, second, batch):
+            for b in batch:
+                rep.case(key=(first, second, b), nontrivial=len(b) > 0, outcome=(second, b))
+        else:
+            for b in batch:
+                if rep.nviolations >= ABANDON:
+                    break
+                v, fid, e, o, detail = s_judge(first, second, b)
+                rep.case(key=(first, second, b), nontrivial=True, outcome=(second, b) if v == 'ok' else (first, second, repr(o)))
+                if v != 'ok':
+                    rep.violation({'part': 's', 'first': first, 'second': second, 'body': b}, e, o, detail)
+        del batch[:]
+
+    for L in range(0, maxlen + 1):
+        for tup in itertools.product(range(len(syms)), repeat=L):
+            body = ''.join(syms[k] for k in tup)
+            if full_end and (full_end in body or (second == 'zzv' and '\\end{zzv}' in body)):
+                continue
+            if len(tup) > 1 and greedy(body, syms) != tup:
+                continue
+            rep.count('s_sequences')
+            if first == 'alltt':
+                rep.count('s_after_alltt')
+            batch.append(body)
+            if len(batch) >= BATCH:
+                flush()
+                if rep.nviolations >= ABANDON:
+                    break
+    flush()
+    if rep.nviolations >= ABANDON:
+        rep.count('blocks_abandoned_after_%d_violations' % ABANDON)
+    return rep.close_block()
+
+
+# ---------------------------------------------------------------------------------------------------------
 # (b) formula source
 # ---------------------------------------------------------------------------------------------------------
 # own copy of the default category table (TeXbook / LaTeX defaults)
@@ -286,7 +396,7 @@ for _c in 'abcdefghijklmnopqrstuvwxyzABCDEFGHIJKLMNOPQRSTUVWXYZ':
     DEFAULT[_c] = 11
 
 PRE_B = ('\\newcommand{\\zzm}[1]{\\gamma #1\\delta }\\newcommand{\\zzR}{\\ifmmode\\beta \\else$\\beta $\\fi}'
-         '\\newcommand{\\zzx}{ab}\\newtheorem{zzt}{Theorem}\\begin{document}\n\n')
+         '\\newcommand{\\zzx}{ab}\\newtheorem{zzt}{Theorem}\\def\\zzp(#1){\\langle #1\\rangle }\\begin{document}\n\n')
 PRE_B_AMS = '\\usepackage{amsmath}' + PRE_B
 
 LEAVES = ['x', '\\alpha ', '<', '>', "y'", '\\,', '\\quad ', '2', '\\sqrt x']
@@ -384,7 +494,12 @@ XTRA = ([('ml', k) for k in MODE_KINDS] + [('tb', b, k) for b in BOXES for k in 
         + [('zx', i) for i in range(len(ZX))] + [('arre', i) for i in range(len(ARRE))] + [('lang', 0), ('lang', 1)]
         + ['a--b', 'a---b', "f''", 'a~b'])
 LANG = ['\\left%s x \\right%s', '\\big%s x \\big%s']      # < > after \left, \big ... are documented to become \langle \rangle
-ATOM_OPS = ('zzmu', 'ml', 'tb', 'zx', 'arre', 'lang')
+#  ('dp', i)        \def\zzp(#1){\langle #1\rangle} applied to a delimited argument: TeX strips the braces only when the whole
+#                   argument is one brace group
+DP_ARGS = ['{x}y{z}', '{x}_{i}+{y}^{2}', '{x}{y}', '{{x}}', '{x}', 'x{y}']
+DP_STRIPPED = ['{x}y{z}', '{x}_{i}+{y}^{2}', '{x}{y}', '{x}', 'x', 'x{y}']
+XTRA += [('dp', i) for i in range(len(DP_ARGS))]
+ATOM_OPS = ('zzmu', 'ml', 'tb', 'zx', 'arre', 'lang', 'dp')
 
 # own copy of the document's text-mode character substitutions, in the order they are tried
 CHARSUBS = [('``', chr(8220)), ("''", chr(8221)), ('"`', chr(8222)), ('"\'', chr(8220)), ('`', chr(8216)), ("'", chr(8217)),
@@ -436,6 +551,8 @@ def pr(t, expand=False, dev='', sub=False):
         if not expand:
             return tpl % '\\zzx '
         return tpl % ('ab' if '{%s}' in tpl else ' ab' if 'u' in dev else '{ab}')
+    if op == 'dp':
+        return ('\\langle %s\\rangle ' % DP_STRIPPED[t[1]]) if expand else ('\\zzp(%s)' % DP_ARGS[t[1]])
     if op == 'lang':
         return LANG[t[1]] % (('\\langle ', '\\rangle ') if expand else ('<', '>'))
     if op == 'arre':
@@ -805,7 +922,7 @@ def _ops(t):
 
 # ---------------------------------------------------------------------------------------------------------
 def run_block(block):
-    return a_run_block(block) if block[0] == 'a' else b_run_block(block)
+    return a_run_block(block) if block[0] == 'a' else s_run_block(block) if block[0] == 's' else b_run_block(block)
 
 
 def _all_open(fids):
@@ -814,7 +931,11 @@ def _all_open(fids):
 
 
 def replay(case):
-    if case['part'] == 'a':
+    if case['part'] == 's':
+        v, fid, exp, obs, detail = s_judge(case['first'], case['second'], case['body'])
+        fids = []
+        src = SEQ_PRE + s_unit(case['first'], case['second'], case['body'])
+    elif case['part'] == 'a':
         v, fid, exp, obs, detail = a_judge(case['kind'], case['d'], case['body'])
         fids = [fid] if fid else []
         src = a_pre(case['kind']) + a_unit(case['kind'], case['d'], case['body'])
@@ -895,6 +1016,13 @@ def run(tier, seed, rep):
                     blocks.append(('a', kind, '', 'ext', (k1, k2), Le, 2, True))
     bounds['a_extended_alphabet'] = {'symbols': 22, 'max_len': Le, 'must_contain': 'end{NAME} or \\endNAME'}
 
+    Ls = 2 if quick else 3
+    for first in SEQ_KINDS:
+        for second in SEQ_KINDS:
+            blocks.append(('s', first, second, Ls))
+    bounds['a_sequences'] = {'first': SEQ_KINDS, 'second': SEQ_KINDS, 'second_body_max_len': Ls, 'symbols': 20,
+                             'alltt_as_second': 'alphabet without \\ { } ` -'}
+
     # ---- (b)
     D = 3 if quick else 4
     for ctx in CONTEXTS + CONTEXTS2:
@@ -928,7 +1056,7 @@ def run(tier, seed, rep):
     return {'exhaustive': not abandoned, 'bounds': bounds, 'blocks': len(blocks),
             'floors': {'evaluations': 900000 if quick else 15000000, 'a_with_partial_end_marker': 100000,
                        'b_op_arr': 1000, 'b_op_mbox': 1000, 'b_op_zzm': 1000, 'b_op_sqrtn': 1000,
-                       'b_unbraced_spelling': 5000, 'b_mode_and_extra': 5000, 'b_after_optional_argument': 5000}}
+                       'b_unbraced_spelling': 5000, 'b_mode_and_extra': 5000, 'b_after_optional_argument': 5000, 's_after_alltt': 1500}}
 
 
 RULE = ('(a) bodies = strings over 16 characters (\\ { } % # & $ ^ ~ blank newline ` - e n d) + 4 composite symbols (\\end, '
@@ -936,7 +1064,7 @@ RULE = ('(a) bodies = strings over 16 characters (\\ { } % # & $ ^ ~ blank newli
         'string once (longest-match spelling), never containing the full end delimiter, as body of verbatim, verbatim*, '
         '\\verb|..| and \\verb*|..|; length L+1 over a reduced 8+4 alphabet for verbatim and \\verb; every other printable '
         'non-letter delimiter (40) for \\verb and \\verb* with all bodies of length <= 2 (3) not containing it; bodies of '
-        'length <= 3 (4) over the alphabet extended by end{NAME} (no escape character) and the command form \\endNAME that contain one of the two; bodies of length <= 2 (3) in a user environment \\newenvironment{zzv}{\\verbatim}{\\endverbatim}. Observed: node.textContent, text after the construct '
+        'length <= 3 (4) over the alphabet extended by end{NAME} (no escape character) and the command form \\endNAME that contain one of the two; every ordered pair of {verbatim, verbatim*, \\verb, \\verb*, alltt, user environment} in sequence, the first with a fixed body, the second with every body of length <= 2 (3) (alltt as second: alphabet without \\ { } ` -), every body reproduced exactly whatever came before; bodies of length <= 2 (3) in a user environment \\newenvironment{zzv}{\\verbatim}{\\endverbatim}. Observed: node.textContent, text after the construct '
         '(x--..y--%c: dash ligature applied, comment skipped), context depth, verb.source. (b) formula trees of depth '
         '<= 3 (4): 9 leaves, 9 unary and 6 binary operators (binary: all leaf pairs at depth 2, deeper one full child and '
         'one representative sibling, both orders), plus the same operators to depth 2 (3) over 57 unbraced-argument spellings (\\frac, \\stackrel x {braced, letter, digit}^2; \\sqrt, \\hat, \\bar, \\mathbf, \\sqrt[3], \\sqrt[n] x 3; scripts z^a_b both orders x 9; \\zzm x), plus the same operators to depth 2 (3) over 34 further atoms: mode-sensitive material (user macro with \\ifmmode, bare \\ifmmode, \\ensuremath) standing in the formula and inside \\mbox/\\text/\\textbf/\\textrm within it -- the operators box>formula put them at every depth of formula>box>formula>box and the oracle expands them by the mode TeX is in --, a multi-token user macro as unbraced argument (9 positions), arrays with an empty row (3), \\left< \\big<, ligature triggers a--b a---b f\'\' and a~b; in $ $, \\( \\), \\[ \\], equation, \\textbf{..$ $..} (and $$ $$ to depth 3); one level less deep in \\begin{math}, \\begin{displaymath}, a cell of eqnarray (whole source and per-cell source) and of align, \\ensuremath{..} in text, adjacent $..$$x$; the empty formula in 5 containers; every atom of the three leaf families (thorough: also every depth-2 tree) in each of 8 containers placed directly after a command or environment opening that takes an optional [..] argument (15 positions: \\item with nothing / blank / newline before the formula, description \\item, \\\\ and \\\\* in text, center and tabular, \\linebreak, \\nolinebreak, \\pagebreak, \\nopagebreak, figure, table, a \\newtheorem environment; display containers not in tabular): the formula node must exist with the printed source; '
